@@ -40,7 +40,200 @@ def r03_3(chk, P):
     return n
 
 
+def r03_2(chk, P, rule='R03.2'):
+    chk.rule(rule, 'no unbounded search loop: a loop of vorbisfile.c that runs until a sentinel local changes '
+             '(`while(offset==-1)`) and whose only other progress is a counter clamped at a bound '
+             '(`begin-=CHUNKSIZE; if(begin<0)begin=0;`) has no iteration that leaves everything as it was: with the sentinel '
+             'still unset and the counter at its bound, every path through the body reaches an exit that is taken for certain '
+             '(K4 refinement of the exit conditions under exactly that state; whatever the callbacks return).  Otherwise a '
+             'source that keeps delivering nothing (premature end of data, a stale length) hangs the call')
+    import absint
+    import cfg
+    from absint import V, K
+    n = 0
+    for F in P.functions():
+        if not F.file.endswith('vorbisfile.c') or F.entry is None:
+            continue
+        loops = cfg.loops(F)
+        for h, body in sorted(loops.items()):
+            t = F.blocks[h].get('term')
+            if not t or t.get('cond') is None:
+                continue
+            c = F.ex[F.strip_casts(t['cond'])]
+            if not (c['k'] == 'bin' and c['op'] == '=='):
+                continue
+            xl = F.ex[F.strip_casts(c['c'][0])]
+            sv = _constv(F, c['c'][1])
+            if xl['k'] != 'ref' or xl['decl'].get('kind') != 'var' or sv is None:
+                continue
+            xid = xl['decl']['id']
+            # counters clamped at a bound inside the loop: V -= c ... if(V<0) V=0
+            clamped = {}
+            for e in F.pos:
+                if F.pos[e][0] not in body:
+                    continue
+                nd = F.ex[e]
+                if nd['k'] == 'assign' and nd['op'] == '=':
+                    l = F.ex[F.strip_casts(nd['c'][0])]
+                    bv = _constv(F, nd['c'][1])
+                    if l['k'] == 'ref' and bv is not None and l['decl'].get('id') != xid:
+                        for cnd, pol in common.controlling_conditions(F, e):
+                            cn = F.ex[F.strip_casts(cnd)]
+                            if pol and cn['k'] == 'bin' and cn['op'] in ('<', '<=', '>', '>=') and \
+                                    F.ex[F.strip_casts(cn['c'][0])].get('decl', {}).get('id') == l['decl'].get('id') and F.pos[cnd][0] in body:
+                                clamped[l['decl']['id']] = bv
+            if not clamped:
+                continue
+            A = absint.Analyzer(P, F)
+            env = A.initial_env()
+            env[f'v{xid}'] = K(sv)
+            for vid, bv in clamped.items():
+                env[f'v{vid}'] = K(bv)
+
+            def sets_x(q):
+                nd = F.ex[q]
+                if nd['k'] == 'assign':
+                    l = F.ex[F.strip_casts(nd['c'][0])]
+                    return l['k'] == 'ref' and l['decl'].get('id') == xid
+                return False
+
+            def edge_ok(b, si):
+                s_ = F.blocks[b]['succs'][si]
+                if s_ not in body:
+                    return False            # leaving the loop is not a stuck iteration
+                tb = F.blocks[b].get('term')
+                if tb and tb.get('cond') is not None and len(F.blocks[b]['succs']) == 2 and tb.get('kind') != 'switch' and b != h:
+                    try:
+                        if A.refine(env.copy(), tb['cond'], si == 0) is None:
+                            return False    # this edge cannot be taken in the stuck state
+                    except Exception:
+                        return True
+                return True
+            # a path from the loop head, through the body, back to the head without setting the sentinel
+            first = [s_ for s_ in F.blocks[h]['succs'] if s_ in body]
+            stuck = None
+            for s0 in first:
+                seen = set()
+                st = [(s0, [h, s0])]
+                by = None
+                while st and stuck is None:
+                    b, path = st.pop()
+                    if b in seen:
+                        continue
+                    seen.add(b)
+                    if any(sets_x(q) for q in F.pos if F.pos[q][0] == b):
+                        continue
+                    for si, s_ in enumerate(F.blocks[b]['succs']):
+                        if s_ is None or not edge_ok(b, si):
+                            continue
+                        if s_ == h:
+                            stuck = path + [h]
+                            break
+                        st.append((s_, path + [s_]))
+            n += 1
+            nm = F.vars.get(xid, {}).get('name', '?')
+            cl = ', '.join(f'{F.vars.get(v_, {}).get("name", "?")}=={b_}' for v_, b_ in clamped.items())
+            chk.ob(rule, F.name, f'search-loop-bails-out:{nm}#{sorted(loops).index(h)}', stuck is None, F.where(t['cond']),
+                   f'with {nm}=={sv} and {cl} every path through the body sets {nm} or leaves the loop' if stuck is None else
+                   f'with {nm}=={sv} and {cl} an iteration can come back to the loop head unchanged (no exit on the way is certain '
+                   'in that state): the loop does not end while the source delivers nothing',
+                   path=cfg.block_lines(F, stuck) if stuck else None)
+    return n
+
+
+def r03_5(chk, P):
+    chk.rule('R03.5', 'a cleared vorbis_info is tolerated by everything vorbisfile hands it to: after a failed header fetch at a '
+             'link boundary of a non-seekable stream the handle keeps vf->vi cleared (codec_setup == NULL) and stays open; '
+             'every libvorbis function that vorbisfile.c calls with a vorbis_info argument (and every function that argument is '
+             'passed on to) is analysed with codec_setup == NULL on entry (K4): no member access through the null pointer is '
+             'reachable -- the function tests it first, like its siblings vorbis_info_blocksize and vorbis_packet_blocksize do')
+    import absint
+    from absint import V
+    todo = []
+    seen = set()
+    for F in P.functions():
+        if not F.file.endswith('vorbisfile.c'):
+            continue
+        for c in F.calls():
+            for t in P.call_targets(F, c):
+                if t.startswith(('ext:', 'cb:', 'unk:')):
+                    continue
+                G = P.fn[t]
+                if G.file.endswith('vorbisfile.c'):
+                    continue
+                for i, p_ in enumerate(G.params):
+                    if p_.get('record') == 'vorbis_info' and p_['t'].rstrip().endswith('*') and p_['t'].count('*') == 1 and (t, i) not in seen:
+                        seen.add((t, i))
+                        todo.append((t, i))
+    n = 0
+    while todo:
+        t, i = todo.pop(0)
+        G = P.fn[t]
+        if G.entry is None:
+            continue
+        pid = G.params[i]['id']
+        A = absint.Analyzer(P, G)
+        base_init = A.initial_env
+
+        def init(A=A, pid=pid, base_init=base_init):
+            env = base_init()
+            env[f'v{pid}'] = V(nn=True)
+            env[f'v{pid}->codec_setup'] = V(0, 0, nn=False)
+            return env
+        A.initial_env = init
+        bad = {}
+        passed = set()
+
+        def obs(A_, env, e, v, pid=pid):
+            nd = A_.ex[e]
+            if nd['k'] == 'member' and nd.get('arrow'):
+                b = A_.F.strip_casts(nd['c'][0])
+                bp = A_.rpath(b, env)
+                if bp == f'v{pid}->codec_setup':
+                    bv = env.get(bp)
+                    if isinstance(bv, V) and (bv.nn is False or bv.const() == 0):
+                        bad.setdefault(e, A_.F.s(e))
+            if nd['k'] == 'call':
+                for tt in P.call_targets(A_.F, e):
+                    if tt.startswith(('ext:', 'cb:', 'unk:')):
+                        continue
+                    H = P.fn[tt]
+                    for j, a in enumerate(nd.get('c', [])):
+                        an = A_.ex[A_.F.strip_casts(a)]
+                        if an['k'] == 'ref' and an['decl'].get('id') == pid and j < len(H.params):
+                            cs = env.get(f'v{pid}->codec_setup')
+                            if isinstance(cs, V) and (cs.nn is False or cs.const() == 0):
+                                passed.add((tt, j))
+        A.observers.append(obs)
+        A.run()
+        for x in sorted(passed):
+            if x not in seen:
+                seen.add(x)
+                todo.append(x)
+        e0 = sorted(bad, key=lambda x: G.ex[x].get('loc') or [0, 0])[0] if bad else None
+        chk.ob('R03.5', G.name, f'tolerates-cleared-info:{G.params[i]["name"]}', not bad, G.where(e0) if e0 else G.where(),
+               'no access through a null codec_setup is reachable' if not bad else
+               f'{bad[e0]} is evaluated with codec_setup == NULL (no test of it on the way): vorbisfile calls this on a handle '
+               'whose info was cleared by a failed header fetch at a link boundary')
+        n += 1
+    return n
+
+
+def _constv(F, e):
+    nd = F.ex[F.strip_casts(e)]
+    if nd['k'] == 'int':
+        return nd['v']
+    if nd['k'] == 'un' and nd['op'] == '-':
+        c = _constv(F, nd['c'][0])
+        return -c if c is not None else None
+    return None
+
+
 def run(chk, P):
+    r03_2(chk, P)
+    chk.floor('R03.2', 2)
+    r03_5(chk, P)
+    chk.floor('R03.5', 5)
     r03_3(chk, P)
     chk.floor('R03.3', 10)
     chk.rule('R03.4', 'failed opens store NULL into vf->datasource before ov_clear on every path; the close callback has one '
